@@ -246,6 +246,8 @@ func runC06(c *Ctx, r *Report) {
 	importRules(c, r, "C18", []string{"R-C18.7"}, "R-C06.18", 0)
 	r.Doc("R-C06.19", "the merge validation refuses a candidate only on what Append fixes for every entry (presence, hash, log id, version, key, signature, identity, clock), through the access controller or through the signature check: no condition of the validation reads the payload, the links or the additional data (an entry with an empty payload or no links is produced by Append and must stay mergeable)")
 	validatorRefusesOnlyOnFixedAttributes(c, r, "R-C06.19")
+	r.Doc("R-C06.20", "the block carries every field exactly as the entry holds it (adopted from C08: a payload rewritten on its way into the block no longer matches what was signed — an entry produced by Append stops verifying for every replica that reads it from the store)")
+	importRules(c, r, "C08", []string{"R-C08.2"}, "R-C06.20")
 	r.Doc("R-C06.17", "what is validated is what is merged, and nothing is merged unvalidated: a log never shares its index with another log (adopted from C02: entries would appear without CanAppend/Verify), and verifying under a link key never writes into the candidate (adopted from C05: Copy shares nothing with the original)")
 	importRules(c, r, "C02", []string{"R-C02.12"}, "R-C06.17")
 	importRules(c, r, "C05", []string{"R-C05.11"}, "R-C06.17")
